@@ -4,8 +4,8 @@ import os, shutil, subprocess, sys
 for i in range(1, 20):
     p = f"C{i:02d}"
     for k in (1, 2):
-        src = f"/tmp/wt5/{p}/_seed/m{k}"
-        dst = f"/verif/seeded/{p}-r5m{k}"
+        src = f"/tmp/wt6/{p}/_seed/m{k}"
+        dst = f"/verif/seeded/{p}-r6m{k}"
         if os.path.exists(dst) or not all(os.path.exists(os.path.join(src, f)) for f in ("patch.diff", "demo.py", "notes.md")):
             continue
         r = subprocess.run(["git", "-C", "/repo", "apply", "--check", os.path.join(src, "patch.diff")], capture_output=True, text=True)
